@@ -517,3 +517,36 @@ def bam_fresh(ctx, L, rule="R-BAM-FRESH"):
                          "(and session number) and are appended to the old data - the application is handed a mixture of two messages", bad)
     if n == 0:
         ctx.unknown(rule, "%s: no BAM path with an occupied receive key found" % f.qual)
+
+
+def rts_accept(ctx, L, rule="R-RTS-ACCEPT"):
+    """an incoming RTS is refused (abort BUSY, no session) only when the receive key of that very (session,) originator, responder
+    triple is occupied - nothing else (own send sessions to the peer, other peers) may make the stack drop an accepted message"""
+    from .common import lits
+    f = L.cm
+    rts = L.ctl.get("RTS")
+    n = 0
+    seen = {}
+    for r in runs(ctx, f):
+        gl = lits(r.guards())
+        if not any(p and g[0] == "cmp" and g[1] == "==" and ("c", rts) in (g[2], g[3]) and contains(g, ("sub", ("p", "data"), ("c", 0))) for g, p in gl):
+            continue
+        created = any(e.kind == "store" and e.value[0] == "dict" and root_field(e.target) == "_rcv_buffer" for _, e in r.effects())
+        aborts = L.calls(r, "__send_tp_abort")
+        if created or not aborts:
+            continue
+        n += 1
+        busy = [g for g, p in gl if p and g[0] == "cmp" and g[1] == "in" and g[3] == ("attr", SELF, "_rcv_buffer")]
+        inst = "%s RTS refusal is conditioned on the occupied receive key alone" % L.tag
+        if busy:
+            seen.setdefault(inst, None)
+        elif seen.get(inst) is None:
+            seen[inst] = aborts[0][1].node
+    for inst, bad in seen.items():
+        if bad is None:
+            ctx.holds(rule, inst)
+        else:
+            ctx.violated(rule, f, inst, "an RTS is answered with an abort on a path where its own receive key is not known to be occupied (some other "
+                         "condition - e.g. a send session of this stack to that peer - refuses it): transfers crossing on the pair are lost", bad)
+    if n == 0:
+        ctx.unknown(rule, "%s: RTS refusal path not found" % f.qual)
